@@ -87,6 +87,14 @@ func newSubProcess(parent context.Context, eventBuilder event.IDefinitionInstanc
 			return
 		}
 
+		// the nodes inside hand their event consumers to the sub-process: it has to be
+		// a consumer of its parent in turn, or no event ever reaches a catch event
+		// inside an embedded sub-process
+		err = parentWiring.eventEgress.RegisterEventConsumer(process)
+		if err != nil {
+			return
+		}
+
 		wiringMaker := func(element *schema.FlowNode) (*wiring, error) {
 			return newWiring(
 				parentWiring.processInstanceId,
